@@ -196,8 +196,11 @@ def run_campaign(prop_id, tier, seed, repo, ncases=None, wall_s=None, verbose=Fa
         wall_used = time.monotonic() - t0
         ev = build_evidence(P, prop_id, tier, seed, agg, outcomes, cross, known_seen, reported,
                             n_new, harness, skipped[0], wall_used, farm)
-        os.makedirs(os.path.join(VERIF, "evidence"), exist_ok=True)
-        with open(os.path.join(VERIF, "evidence", f"{prop_id}.json"), "w") as f:
+        # evidence is only (re)written by runs against /repo itself, never a scratch tree
+        ev_dir = os.path.join(VERIF, "evidence") if os.path.realpath(repo) == "/repo" \
+            else os.path.join(OUT_DIR, "evidence-other-tree")
+        os.makedirs(ev_dir, exist_ok=True)
+        with open(os.path.join(ev_dir, f"{prop_id}.json"), "w") as f:
             json.dump(ev, f, indent=1, sort_keys=True)
         if harness:
             lines.append(f"HARNESS-ERROR: {len(harness)} run(s) failed inside the harness; first: "
